@@ -26,9 +26,9 @@ OTHER = {
 }
 TEXTS = ["x", "a b", "", "3", " 2 ", "7", "1", "{{t|p}}", "[[l|m]] tail", "<b>z</b>", "''i''", " spaced ", "a=b|c", "&amp;", "multi\nline", "日本"]
 INVALID = {
-    "Heading.level": [0, 7, -1, "9", "x", 100], "HTMLEntity.value": ["notanentity", "x110000", "1114112", "-5", "zz", "12FFFF", "ffffffff", "FFFFFFF", "x12FFFF", "0x41", "", "1e3", "99999999"],
+    "Heading.level": [0, 7, -1, "9", "x", 100], "HTMLEntity.value": [" 12", "1_0", "+5", "٣", " ff", "12 ", "1\n", "notanentity", "x110000", "1114112", "-5", "zz", "12FFFF", "ffffffff", "FFFFFFF", "x12FFFF", "0x41", "", "1e3", "99999999"],
     "HTMLEntity.named": [True], "HTMLEntity.hexadecimal": [True], "HTMLEntity.hex_char": ["y", "", "xx", 5],
-    "Parameter.showkey": [False, 0, None, ""], "Attribute.quotes": ["x", "''", "`", None, ""], "Attribute.pad_first": ["x", " a", "\n-"],
+    "Parameter.showkey": [False, 0, None, ""], "Attribute.quotes": ["x", "''", "`", None, "", "\"'", "'\"", '""', "“"], "Attribute.pad_first": ["x", " a", "\n-"],
     "Attribute.pad_before_eq": ["x"], "Attribute.pad_after_eq": ["q "], "Tag.padding": ["x", " y "],
 }
 VALID = {
@@ -134,6 +134,19 @@ def one_sequence(seed):
             return log, "the name assigned by %s is not rendered: the key stays hidden (%r)" % (log[-1], str(obj)), rejected
         if cls == "Parameter" and attr == "name" and obj.showkey and expect is not None and expect.strip() and expect not in str(obj):
             return log, "the parameter does not render the name assigned by %s: %r" % (log[-1], str(obj)), rejected
+        if cls == "HTMLEntity" and attr in ("value", "named", "hexadecimal", "hex_char") and False:
+            pass
+        if cls == "HTMLEntity" and attr == "value":
+            # an accepted value is an entity name or a code point: the node must render something that IS that entity
+            import mwparserfromhell as _M
+            back = _M.parse(str(obj)).nodes
+            zero = not obj.named and str(obj.value).strip("0") == ""      # code point 0: the setters take it, the tokenizers do not
+            if not zero and (len(back) != 1 or type(back[0]).__name__ != "HTMLEntity"):
+                return log, "%s was accepted, but %r is not an entity (it parses as %r)" % (log[-1], str(obj), [type(b).__name__ for b in back]), rejected
+        if cls == "Attribute" and attr == "quotes" and obj.quotes not in (None, '"', "'"):
+            return log, "%s was accepted: the attribute's quote character is now %r" % (log[-1], obj.quotes), rejected
+        if cls == "Attribute" and attr.startswith("pad_") and getattr(obj, attr).strip():
+            return log, "%s was accepted: padding that is not white space" % log[-1], rejected
         for o in objs:
             if isinstance(o, Attribute) and not attr_quote_ok(o):
                 return log, "an attribute value with whitespace is rendered without quotes after %s: %r" % (log[-1], str(o)), rejected
@@ -171,6 +184,14 @@ def run(tier, seed):
             nontrivial.add(tuple(log))
         if fail:
             c.fail(fail, {"seed": s, "assignments": log})
+    import tagadd
+    ta = vlib.robust_map(tagadd.work, [0], chunk=1, timeout=300)[0]
+    if isinstance(ta, tuple) and ta and ta[0] in ("CRASH", "TIMEOUT", "PYEXC"):
+        c.fail("Tag.add probe %s: %s" % (ta[0], str(ta[1])[:300]), {"probe": "tagadd", "outcome": ta[0]})
+    else:
+        c.cov["evaluations"] += ta[1]
+        for msg in ta[0][:20]:
+            c.fail(msg, {"probe": "tagadd", "what": msg})
     import hidekey
     hk = vlib.robust_map(hidekey.work, [0], chunk=1, timeout=240)[0]
     if isinstance(hk, tuple) and hk and hk[0] in ("CRASH", "TIMEOUT", "PYEXC"):
@@ -192,6 +213,11 @@ def run(tier, seed):
 
 
 def replay(data):
+    if data["data"].get("probe") == "tagadd":
+        import tagadd
+        f, _n = tagadd.probe()
+        print("\n".join(f[:20]))
+        return 1 if f else 0
     if data["data"].get("probe") == "hidekey":
         import hidekey
         f, _n = hidekey.probe()
